@@ -33,7 +33,8 @@ def configs(tier):
                 for am, lm, sm in itertools.product(("batch", "sample"), ("batch", "sample"), ("roll", "flip", "random")):
                     for mode in ("x class", "class x", "index x class"):
                         for rc in (False, True):
-                            for label in (("onehot", "binary") if B == 2 else ("onehot",)):
+                            for label in (("onehot", "binary", "onehot_int64", "onehot_float64") if B == 2 else
+                                          (("onehot", "onehot_int64") if hw == shapes[0] else ("onehot",))):
                                 if mode != "x class" and (hw != shapes[0] or rc):
                                     continue  # item order / extra items do not interact with the image shape
                                 out.append(dict(B=B, hw=hw, kind=kind, kw=kw, apply_mode=am, lamb_mode=lm,
@@ -53,6 +54,10 @@ def make_batch(cfg):
         else:
             y = torch.zeros(B)
             y[i] = 1.0
+            if cfg["label"] == "onehot_int64":
+                y = y.long()
+            elif cfg["label"] == "onehot_float64":
+                y = y.double()
         items = {"x": x, "class": y, "index": 10 + i}
         s = tuple(items[m] for m in cfg["mode"].split(" "))
         if len(s) == 1:
@@ -111,6 +116,7 @@ def decode_label(yi, i, cfg):
             raise ValueError(f"binary label {v} out of [0,1]")
         w = v if i == 1 else 1.0 - v
         return (1 - i if w < 1 - 1e-7 else None, w)
+    yi = yi.double()
     C = yi.shape[0]
     if any(float(yi[c]) < -1e-7 for c in range(C)) or abs(float(yi.sum()) - 1.0) > 1e-5:
         raise ValueError(f"label row {yi.tolist()} is not non-negative with sum 1")
